@@ -1,4 +1,5 @@
 """C03 — max-iterations is a hard ceiling; iteration ids are unique and gapless."""
+from ..core import hx
 ID = "C03"
 PROPS = ["F1Verif.Props.C03", "F1Verif.Props.FactsC03"]
 RULE = ("engine A: sequential NextIteration histories for limits 0..50 and call counts around the limit (model and Spec); "
@@ -20,7 +21,12 @@ def corpus():
             "run prop=C03 mode=file dur=3000 conc=2 file=c:250:4/250ms;c:250:4/250ms;c:200:2/100ms body=200",
             "run prop=C03 mode=file dur=3000 conc=3 maxit=11 file=u:200:3;c:300:3/100ms;u:2000:2 body=5 expectlimit=1",
             "run prop=C03 mode=constant rate=5/50ms dur=400 conc=4 body=10 maxit=17 expectlimit=1",
-            "run prop=C03 mode=users conc=5 dur=400 body=3 maxit=40 expectlimit=1"]
+            "run prop=C03 mode=users conc=5 dur=400 body=3 maxit=40 expectlimit=1",
+            # through the command line: the limit of a config file, a combined scenario executed twice on one F1
+            "cli mode=file fdur=800 conc=2 maxit=7 bodyms=1 fstages=c:150:5/50ms;u:500:2 expectlimit=1",
+            "cli mode=file fdur=800 conc=2 maxit=9 bodyms=1 fstages=u:600:2 expectlimit=1",
+            "cli mode=users dur=%s conc=1 bodyms=0 maxit=5 combine=1 twice=1 expectlimit=1" % hx("300ms"),
+            "cli mode=users dur=%s conc=3 bodyms=0 maxit=17 expectlimit=1" % hx("300ms")]
 
 
 def generate(rng, tier):
@@ -44,7 +50,19 @@ def generate(rng, tier):
                                       "u:%d:%d" % (rng.choice([150, 250]), rng.randint(1, 3))]) for _ in range(k))
         out.append("run prop=C03 mode=file dur=4000 conc=%d file=%s body=%d%s" % (
             rng.choice([1, 2, 4]), stages, rng.choice([5, 120, 220]), rng.choice(["", "", " maxit=%d" % rng.randint(3, 15)])))
+    from . import _plan
+    for _ in range({"quick": 6, "thorough": 60, "search": 16}[tier]):
+        out.append(_plan.cli_verdict_case(rng) + rng.choice(["", " combine=1", " combine=1 twice=1", " twice=1"]))
     return out
+
+
+def compare(rec):
+    if rec["case"].startswith("cli "):
+        from . import _plan
+        return _plan.cli_compare(rec)
+    if rec["model"] == "-":
+        return None
+    return None if rec["impl"] == rec["model"] else "model=%s impl=%s" % (rec["model"], rec["impl"])
 
 
 def nontrivial_key(rec):
@@ -59,7 +77,7 @@ def distribution(recs):
     for r in recs:
         a = r["case"].split()
         d[a[0]] = d.get(a[0], 0) + 1
-        if a[0] == "run":
+        if a[0] in ("run", "cli"):
             d["limit_reached"] += "maxit=" in r["case"]
         elif a[0] == "iter.seq":
             d["limit_reached"] += int(a[1]) > 0 and int(a[2]) > int(a[1])
